@@ -6,6 +6,7 @@
 //! span; it reads each enabled span's ids from its own (uniquely named) span event and demands the
 //! relations the property states between them.
 
+pub mod ctxts;
 pub mod exec;
 pub mod interp;
 pub mod rt;
@@ -18,7 +19,7 @@ use vcore::{vassert, Cx, Res};
 
 use interp::{Env, Obs};
 use rt::Rec;
-use tree::{Case, IdForm, Incoming, Prog, RngKind, Scope};
+use tree::{Case, CtxtKind, IdForm, Incoming, Prog, RngKind, Scope};
 
 /// 32 (or 16) hex digits, either case → integer.
 fn parse_hex(s: &str, digits: usize) -> Option<u128> {
@@ -84,29 +85,59 @@ pub fn classify(case: &Case, prog: &Prog, cx: &mut Cx) {
     cx.class_if(st.sync_in_async, "sync-span-in-async-body");
     cx.class_if(st.async_in_sync, "async-span-in-sync-body");
     cx.class_if(prog.spans.len() >= 10, "nodes>=10");
+    // the ambient context as a dimension, and the original domain (the real context) at depth
+    let chain3 = st.max_chain >= 3 && case.rng != RngKind::Empty;
+    cx.class(case.ctxt.label());
+    cx.class_if(st.max_chain >= 3, "enabled-chain>=3");
+    cx.class_if(st.max_chain >= 5, "enabled-chain>=5");
+    cx.class_if(chain3 && case.ctxt == CtxtKind::ThreadLocal, "ctxt:thread-local/enabled-chain>=3");
+    cx.class_if(chain3 && matches!(case.ctxt, CtxtKind::Erased(_)), "ctxt:erased/enabled-chain>=3");
+    cx.class_if(chain3 && case.ctxt.duplicates(), "ctxt:lists-duplicates/enabled-chain>=3");
+    cx.class_if(chain3 && case.ctxt == CtxtKind::Stack { dedup: false }, "ctxt:plain-stack/provided-open-push/duplicates/enabled-chain>=3");
+    cx.class_if(chain3 && case.ctxt.duplicates() && st.event_at_chain3, "ctxt:lists-duplicates/event-inside-enabled-chain>=3");
+    cx.class_if(chain3 && case.ctxt.duplicates() && st.revert_after_chain3, "ctxt:lists-duplicates/revert-after-enabled-chain>=3-span-ends");
+    cx.class_if(case.ctxt.duplicates() && st.disabled_with_enabled_descendant, "ctxt:lists-duplicates/disabled-with-enabled-descendant");
+    cx.class_if(case.ctxt.duplicates() && hop, "ctxt:lists-duplicates/thread-hop");
+    cx.class_if(case.ctxt.duplicates() && st.handoffs > 0, "ctxt:lists-duplicates/own-frame-handoff");
+    cx.class_if(case.ctxt.duplicates() && st.joins > 0, "ctxt:lists-duplicates/async-join");
+    cx.class_if(case.ctxt.duplicates() && case.incoming.is_some(), "ctxt:lists-duplicates/incoming-ids");
     for s in &prog.spans {
         cx.class(s.form.label());
     }
     cx.nontrivial(deep || st.disabled_with_enabled_descendant || st.joins > 0 || hop || string_ids);
 }
 
-pub fn check_case(case: &Case, cx: &mut Cx) -> Res {
-    let prog = tree::number(case);
-    classify(case, &prog, cx);
-
-    let (rt, rec) = rt::build(case.rng);
+/// Runs the numbered program on a private runtime built around `ctxt`.
+fn run_on<C: rt::TCtxt>(case: &Case, prog: &Prog, ctxt: C) -> (Option<vcore::Fail>, Vec<Rec>, Vec<Obs>) {
+    let (rt, rec) = rt::build(case.rng, ctxt);
     let obs = Mutex::new(Vec::new());
     let fail = Mutex::new(None);
-    let frames: Vec<Mutex<Option<interp::CapturedFrame>>> = (0..prog.frames).map(|_| Mutex::new(None)).collect();
+    let frames: Vec<Mutex<Option<interp::CapturedFrame<C>>>> = (0..prog.frames).map(|_| Mutex::new(None)).collect();
     {
         let env = Env { rt: &rt, obs: &obs, fail: &fail, frames: &frames };
         interp::run_root(&env, case.incoming.as_ref(), &prog.items, prog.final_check);
     }
-    if let Some(f) = fail.into_inner().unwrap() {
+    drop(frames);
+    let recs = rec.0.lock().unwrap().clone();
+    (fail.into_inner().unwrap(), recs, obs.into_inner().unwrap())
+}
+
+pub fn check_case(case: &Case, cx: &mut Cx) -> Res {
+    let prog = tree::number(case);
+    classify(case, &prog, cx);
+
+    let (fail, recs, obs) = match case.ctxt {
+        CtxtKind::ThreadLocal => run_on(case, &prog, emit::platform::thread_local_ctxt::ThreadLocalCtxt::new()),
+        CtxtKind::Stack { dedup } => run_on(case, &prog, ctxts::StackCtxt::new(dedup)),
+        CtxtKind::Erased(inner) => run_on(case, &prog, ctxts::erased(inner)),
+    };
+    if let Some(f) = fail {
         cx.fail(f.sig, format!("on a hop thread: {}", f.msg))?;
     }
-    let recs = rec.0.lock().unwrap().clone();
-    let obs = obs.into_inner().unwrap();
+    // what the ambient props really looked like (measured, not assumed from the context kind)
+    let listed = obs.iter().map(|o| o.span_id_listed).max().unwrap_or(0);
+    cx.class_if(listed >= 2, "ambient-props-list-span-id-twice-or-more");
+    cx.class_if(listed >= 3, "ambient-props-list-span-id-3x-or-more");
     judge(case, &prog, &recs, &obs, cx)
 }
 
